@@ -17,7 +17,10 @@ import time
 VERIF = os.path.dirname(os.path.dirname(os.path.abspath(__file__)))
 REPO = os.environ.get('SPOWTD_REPO', '/repo')
 COQ = os.path.join(VERIF, 'coq')
-WORK = os.path.join(VERIF, 'work')
+# VERIF_SCRATCH=<dir> (development: trying the checks on a changed copy of the repository, possibly several at
+# once) redirects everything a run writes - work files, evidence, replays - below <dir>; unset = /verif itself.
+OUT = os.environ.get('VERIF_SCRATCH') or VERIF
+WORK = os.path.join(OUT, 'work')
 COQ_WARN = ['-w', '-notation-overridden,-deprecated-hint-without-locality,'
             '-deprecated-syntactic-definition,-abstract-large-number']
 
